@@ -87,13 +87,21 @@ def check_reader_tables(ctx: CheckContext, p: Program, r: Resolver, rule: str = 
     if load is None:
         raise AnalysisError("PinchProblem.load not found")
     calls = []
+    scope = [load]
     for call, tg in r.calls_of(load):
         for t in tg:
-            if isinstance(t, FuncInfo) and t.module is cs:
-                shape = (t.qualname, len(call.args), tuple(sorted((k.arg, ast.unparse(k.value)) for k in call.keywords)))
-                calls.append((call, shape))
-    if len(calls) < 2:
-        ctx.ob(rule + "-SIB", f"{load.qualname}:csv-forms", load.loc, False, f"expected two CSV entry calls (tuple and directory form), found {len(calls)}")
+            if isinstance(t, FuncInfo) and t.cls is pp and t not in scope:
+                scope.append(t)          # private helper methods the loader delegates to
+    for g in scope:
+        for call, tg in r.calls_of(g):
+            for t in tg:
+                if isinstance(t, FuncInfo) and t.module is cs:
+                    shape = (t.qualname, len(call.args), tuple(sorted((k.arg, ast.unparse(k.value)) for k in call.keywords)))
+                    calls.append((call, shape))
+    if len(calls) == 0:
+        ctx.ob(rule + "-SIB", f"{load.qualname}:csv-forms", load.loc, False, "PinchProblem.load no longer reaches the CSV reader")
+    elif len(calls) == 1:
+        ctx.ob(rule + "-SIB", f"{load.qualname}:csv-forms", load.loc, True, "both CSV forms share one call of the reader")
     else:
         ok = all(s == calls[0][1] for _, s in calls)
         ctx.ob(rule + "-SIB", f"{load.qualname}:csv-forms", load.loc, ok,
